@@ -4,11 +4,13 @@ import Qfx.Drv.Val
 import Qfx.Drv.ValMon
 import Qfx.Drv.Sched
 import Qfx.Drv.SchedMon
+import Qfx.Drv.Sess
 namespace Qfx.Drv
 
 def families : List (String × Family) :=
   [ ("val", valFamily), ("val-mon", valMonFamily)
   , ("sched", schedFamily), ("sched-mon", schedMonFamily)
+  , ("sess", sessFamily)
   ]
 
 end Qfx.Drv
